@@ -47,24 +47,90 @@ package pointindex
 //@   ensures wfIndex(ix) && indexInv0(ix) && indexGrid(ix)
 //@   ensures result == nil ==> storedQ(ix, 0, 0) && (roundGrid(ix) ==> indexInv(ix))
 
-// insertCoord: verified for safety, termination and frame. That it also keeps the representation invariants of the
-// quadtree (indexInv0, indexGrid) and stores the root is ASSUMED here, not proved (assumedensures): the proof attempt
-// with step assertions is parked in /verif/drafts/insertCoord_invariant_proof.txt. The invariants are what the
-// descent contracts (snapClosestPoints, SnapClosestPoints) take as precondition.
+// insertCoord keeps the representation invariants of the quadtree and stores the root. Inside the loop they are kept in
+// the form the code maintains them - every stored pixel is a function of its level and key on the grid (gridInv), and
+// the parent of a stored pixel is stored (parentClosed) - and turned back into the form the descent consumes
+// (entryInv, linkInv) by pure arithmetic lemmas at the end.
 //@ macro kx(ix, X, l) = X / pow2(ix.deepestLevel - l)
+//@ macro storedK(ix, l, z) = hasKey(mget(ix.quadrants, l), z)
+//@ macro gridEntry(ix, l, z) = quadOf(ix, l, z).z == z && 0 <= z && z <= 0xFFFFFFFFFFFFFFFF && even_bits(z) < pow2(l) && even_bits(z >> 1) < pow2(l)
+//@     && quadOf(ix, l, z).intExtent == gridExt(ix, l, even_bits(z), even_bits(z >> 1))
+//@     && quadOf(ix, l, z).intCentroid == gridCentre(ix, l, even_bits(z), even_bits(z >> 1))
+//@ macro gridInv(ix) = forall(l Int, z Int, 0 <= l && l <= ix.deepestLevel && storedQ(ix, l, z) ==> gridEntry(ix, l, z), trigger(storedK(ix, l, z)))
+//@ macro parentClosed(ix) = forall(l Int, z Int, 1 <= l && l <= ix.deepestLevel && storedQ(ix, l, z) ==> storedQ(ix, l - 1, z / 4), trigger(storedK(ix, l, z)))
 //@ func (*PointIndex).insertCoord
 //@   prelude arith morton
+//@   opaquemul
 //@   requires wfIndex(ix) && indexInv0(ix) && indexGrid(ix)
 //@   requires 0 <= deepestX && deepestX < ix.deepestSize && 0 <= deepestY && deepestY < ix.deepestSize
 //@   modifies ix.quadrants
-//@   loop l
+//@   loop l isolated
 //@     invariant l <= ix.deepestLevel + 1 && wfIndex(ix)
 //@     invariant 0 <= deepestX && deepestX < ix.deepestSize && 0 <= deepestY && deepestY < ix.deepestSize
+//@     invariant gridInv(ix) using stepassert(2); stepassert(4)
+//@     invariant parentClosed(ix) using stepassert(1); stepassert(2); stepassert(3)
+//@     invariant l >= 1 ==> storedQ(ix, l - 1, interleave(kx(ix, deepestX, l - 1), kx(ix, deepestY, l - 1))) using stepassert(1); stepassert(2)
+//@     invariant l >= 1 ==> storedQ(ix, 0, 0) using stepassert(1); stepassert(2)
 //@     loopuse l <= ix.deepestLevel ==> pow2_split(ix.deepestLevel, l) && div_bound(deepestX, ix.deepestLevel, l) && div_bound(deepestY, ix.deepestLevel, l)
+//@     loopuse l <= ix.deepestLevel ==> roundtrip(kx(ix, deepestX, l), kx(ix, deepestY, l)) && zero_key(0)
+//@     loopuse 1 <= l && l <= ix.deepestLevel ==> div_nest(deepestX, ix.deepestLevel - l) && div_nest(deepestY, ix.deepestLevel - l)
+//@     loopuse 1 <= l && l <= ix.deepestLevel ==> parent(kx(ix, deepestX, l), kx(ix, deepestY, l))
+//@     loopuse pow2_zero(0)
+//@     stepassert x == kx(ix, deepestX, athead(l)) && y == kx(ix, deepestY, athead(l)) && z == interleave(x, y)
+//@         && even_bits(z) == x && even_bits(z >> 1) == y && 0 <= x && x < pow2(athead(l)) && 0 <= y && y < pow2(athead(l))
+//@     stepassert storedQ(ix, athead(l), z) && gridEntry(ix, athead(l), z) using stepassert(1)
+//@     stepassert athead(l) >= 1 ==> z / 4 == interleave(kx(ix, deepestX, athead(l) - 1), kx(ix, deepestY, athead(l) - 1)) using stepassert(1)
+//@     stepassert forall(l2 Int, z2 Int, storedQ(ix, l2, z2) && !(l2 == athead(l) && z2 == z) ==> athead(storedQ(ix, l2, z2)) && quadOf(ix, l2, z2) == athead(quadOf(ix, l2, z2)), trigger(storedK(ix, l2, z2)))
 //@     decreases ix.deepestLevel + 1 - l
 //@   ensures wfIndex(ix)
-//@   assumedensures indexInv0(ix) && indexGrid(ix) && storedQ(ix, 0, 0)
-//@   assumedensures roundGrid(ix) ==> indexInv(ix)
+//@   proves gridInv(ix) && parentClosed(ix)
+//@   postuse forall(l Int, z Int, grid_entry_ok(ix.intExtent[0], ix.intExtent[1], ix.deepestRes, ix.deepestLevel, l, even_bits(z), even_bits(z >> 1)), trigger(storedK(ix, l, z)))
+//@   postuse forall(l Int, z Int, grid_child(ix.deepestRes, ix.deepestLevel, l, even_bits(z)) && grid_child(ix.deepestRes, ix.deepestLevel, l, even_bits(z >> 1)), trigger(storedK(ix, l, z)))
+//@   postuse forall(l Int, z Int, onto(z) && parent_bits(z) && low_bits(even_bits(z), even_bits(z >> 1)) && key_bound(even_bits(z), even_bits(z >> 1)) && (l <= 31 ==> pow2_le31(l)), trigger(storedK(ix, l, z)))
+//@   postuse zero_key(0) && roundtrip(0, 0) && pow2_zero(0) && tm_zero_one(even_bits(0), pixSpan(ix, 0)) && tm_zero_one(even_bits(0 >> 1), pixSpan(ix, 0))
+//@   ensures indexGrid(ix)
+// the parts of entryInv and linkInv, one by one (posts 4-7 and 9-14), then the invariants themselves from the parts
+//@   proves forall(l Int, z Int, 0 <= l && l <= ix.deepestLevel && storedQ(ix, l, z) ==> quadOf(ix, l, z).z == z && extentOK(quadOf(ix, l, z).intExtent), trigger(storedK(ix, l, z)))
+//@   proves forall(l Int, z Int, 0 <= l && l <= ix.deepestLevel && storedQ(ix, l, z) ==> (l <= 31 ==> z <= 0x3FFFFFFFFFFFFFFF), trigger(storedK(ix, l, z)))
+//@   proves forall(l Int, z Int, 0 <= l && l <= ix.deepestLevel && storedQ(ix, l, z) ==> (l == 0 ==> z == 0), trigger(storedK(ix, l, z)))
+//@   proves forall(l Int, z Int, 0 <= l && l <= ix.deepestLevel && storedQ(ix, l, z) ==> (l < ix.deepestLevel ==> wfParent(quadOf(ix, l, z))), trigger(storedK(ix, l, z)))
+//@   proves entryInv(ix) using post(4); post(5); post(6); post(7)
+//@   proves forall(l Int, z Int, 1 <= l && l <= ix.deepestLevel && storedQ(ix, l, z) ==> storedQ(ix, l - 1, z / 4) && wfParent(quadOf(ix, l - 1, z / 4)), trigger(storedK(ix, l, z)))
+//@   proves forall(l Int, z Int, 1 <= l && l <= ix.deepestLevel && storedQ(ix, l, z) ==> quadOf(ix, l, z).intExtent[0] == childExt(quadOf(ix, l - 1, z / 4), z % 2, (z / 2) % 2)[0], trigger(storedK(ix, l, z)))
+//@   proves forall(l Int, z Int, 1 <= l && l <= ix.deepestLevel && storedQ(ix, l, z) ==> quadOf(ix, l, z).intExtent[1] == childExt(quadOf(ix, l - 1, z / 4), z % 2, (z / 2) % 2)[1], trigger(storedK(ix, l, z)))
+//@   proves forall(l Int, z Int, 1 <= l && l <= ix.deepestLevel && storedQ(ix, l, z) ==> quadOf(ix, l, z).intExtent[2] == childExt(quadOf(ix, l - 1, z / 4), z % 2, (z / 2) % 2)[2], trigger(storedK(ix, l, z)))
+//@   proves forall(l Int, z Int, 1 <= l && l <= ix.deepestLevel && storedQ(ix, l, z) ==> quadOf(ix, l, z).intExtent[3] == childExt(quadOf(ix, l - 1, z / 4), z % 2, (z / 2) % 2)[3], trigger(storedK(ix, l, z)))
+//@   proves forall(l Int, z Int, 1 <= l && l <= ix.deepestLevel && storedQ(ix, l, z) ==> quadOf(ix, l, z).intExtent == childExt(quadOf(ix, l - 1, z / 4), z % 2, (z / 2) % 2), trigger(storedK(ix, l, z))) using only; post(10); post(11); post(12); post(13)
+//@   proves linkInv(ix) using post(9); post(14)
+//@   proves roundGrid(ix) ==> quadOf(ix, 0, 0) == ix.Quadrant
+//@   proves ix.deepestLevel <= 32 && !isNil(ix.quadrants) && extentOK(ix.intExtent)
+//@   ensures[C02,C03,C08,C09,C05,C06] indexInv0(ix) using only; post(8); post(15); post(17)
+//@   ensures[C02,C03,C08,C09,C05,C06] storedQ(ix, 0, 0)
+//@   ensures[C02,C03,C08,C09,C05,C06] roundGrid(ix) ==> indexInv(ix) using only; post(16); post(18); post(19)
+
+// pure arithmetic of the grid (no index involved); in insertCoord, where products are opaque, instances of these
+// lemmas are all that is known about them
+//@ macro gs(res, d, l) = pow2(d - l) * res
+//@ lemma grid_entry_ok(minx Int, miny Int, res Int, d Int, l Int, x Int, y Int)
+//@   prelude arith
+//@   requires 0 <= l && l <= d && d <= 32 && res > 0 && 0 <= x && x < pow2(l) && 0 <= y && y < pow2(l)
+//@   requires 0 - 1152921504606846976 <= minx && minx <= 1152921504606846976 && 0 - 1152921504606846976 <= miny && miny <= 1152921504606846976
+//@   requires pow2(d) * res <= 1152921504606846976
+//@   use pow2_split(d, l) && pow2_pos(d - l) && pow2_pos(l)
+//@   use l < d ==> pow2_step(d - l)
+//@   ensures gs(res, d, l) >= 1 && (x + 1) * gs(res, d, l) == x * gs(res, d, l) + gs(res, d, l) && (y + 1) * gs(res, d, l) == y * gs(res, d, l) + gs(res, d, l)
+//@   ensures ordOK(minx + x * gs(res, d, l)) && ordOK(miny + y * gs(res, d, l)) && ordOK(minx + (x + 1) * gs(res, d, l)) && ordOK(miny + (y + 1) * gs(res, d, l))
+//@   ensures l < d ==> hfloor(gs(res, d, l)) >= 1 && 2 * hfloor(gs(res, d, l)) == gs(res, d, l)
+//@ lemma grid_child(res Int, d Int, l Int, x Int)
+//@   prelude arith
+//@   requires 1 <= l && l <= d && d <= 32 && res > 0 && 0 <= x
+//@   use pow2_step(d - l + 1) && pow2_pos(d - l)
+//@   ensures gs(res, d, l - 1) == 2 * gs(res, d, l) && hfloor(gs(res, d, l - 1)) == gs(res, d, l)
+//@   ensures (x / 2) * gs(res, d, l - 1) + ite(x % 2 == 1, gs(res, d, l), 0) == x * gs(res, d, l)
+//@ lemma tm_zero_one(k Int, s Int)
+//@   prelude arith
+//@   requires k == 0
+//@   ensures k * s == 0 && (k + 1) * s == s
 
 // arithmetic lemmas used above
 //@ lemma pow2_step(n Int)
